@@ -24,11 +24,17 @@ func (g *Gen) seedGenesis(gs *GenesisSpec) {
 	lens := []int{1, 2, 3, 19, 20, 21, 32, 64, 255}
 	special := [][]byte{make([]byte, 20), bytesOf(0xff, 20), bytesOf(0x00, 32), bytesOf(0xff, 32), append(bytesOf(0x00, 19), 1), append([]byte{0xff}, make([]byte, 31)...)}
 	a := &AolGenesisSpec{}
-	nOwners := r.Range(2, 5)
+	nOwners := r.Range(2, 6)
+	// sibling owners: same length, same bytes except the last one, one of them ending in 0x00 (and the all-zero address)
+	sib := append([]byte(nil), base[100:119]...)
+	siblings := [][]byte{append(append([]byte(nil), sib...), 0x00), append(append([]byte(nil), sib...), 0x07), make([]byte, 20), append(append([]byte(nil), sib[:18]...), 0x00, 0x00), append(append([]byte(nil), sib...), 0xff)}
+	useSib := r.Chance(0.4)
 	for i := 0; i < nOwners; i++ {
 		var ob []byte
 		if i == 0 {
 			ob = g.env.Accs[r.Intn(4)].Addr
+		} else if useSib && i-1 < len(siblings) {
+			ob = siblings[i-1]
 		} else {
 			ob = base[:lens[r.Intn(len(lens))]]
 		}
@@ -153,6 +159,19 @@ func (g *Gen) seedGenesis(gs *GenesisSpec) {
 			p.Tokens = append(p.Tokens, map[string]string{"denom": id, "id": tid, "name": "seed-token", "desc": "d", "uri": "u", "uri_hash": "h", "data": "x", "creator": owner, "owner": owner, "at": fmt.Sprint(gs.TimeUnix - int64(100+j))})
 		}
 	}
+	if r.Chance(0.15) {
+		// more denoms than one default page (100) holds, spread over the accounts
+		n := r.Range(99, 104)
+		for k := 0; k < n; k++ {
+			id := fmt.Sprintf("bulk-%03d", k)
+			if !usedD[id] {
+				usedD[id] = true
+				p.Denoms = append(p.Denoms, map[string]string{"id": id, "name": "bulk", "symbol": "B", "desc": "", "uri": "", "uri_hash": "", "data": "", "owner": g.addr(k % 5)})
+			}
+		}
+		// "zz" sorts after every other id: the owner of the last denom in key order
+		p.Denoms = append(p.Denoms, map[string]string{"id": "zz-last", "name": "last", "symbol": "Z", "desc": "", "uri": "", "uri_hash": "", "data": "", "owner": g.addr(5)})
+	}
 	gs.Pnft = p
 	// the planning model must know the seeded state
 	_, m := g.env.BuildGenesisModelOnly(gs)
@@ -250,6 +269,17 @@ func (g *Gen) boundaryTable() []MsgSpec {
 		mut(func(d *DocSpec) { d.VMs[0].Id = good + "#" + s; d.Auth[0].Ref = good + "#" + s })
 	}
 	mut(func(d *DocSpec) { d.VMs[0].Id = "did:panacea:" + rep("2", 40) + "#key1"; d.Auth[0].Ref = d.VMs[0].Id })
+	// the fragment limit is per fragment, whatever the length of the DID in front of it
+	for _, dl := range []int{32, 33, 43} {
+		short := "did:panacea:" + rep("3", dl)
+		for _, fl := range []int{128, 129, 130, 140} {
+			sd, f := short, fl
+			d := g.plainDoc(sd, k)
+			d.VMs[0].Id = sd + "#" + rep("f", f)
+			d.Auth[0].Ref = d.VMs[0].Id
+			out = append(out, MsgSpec{T: "did.Create", F: map[string]string{"did": sd, "from": o}, Doc: d, Proof: &ProofSpec{Key: k, MethodID: d.VMs[0].Id, Seq: "0"}})
+		}
+	}
 	mut(func(d *DocSpec) { d.VMs[0].Id = "key1"; d.Auth[0].Ref = "key1" })
 	for _, typ := range []string{"", "Ed25519VerificationKey2018", "JsonWebKey2020", "UnheardOfKey2031", "Secp256k1VerificationKey2018", "X25519KeyAgreementKey2019"} {
 		t := typ
